@@ -142,12 +142,22 @@ def run_check(prop, tier, seed):
         if inst.get("simulate"):
             sim = dict(inst["simulate"])
             sim["seed"] = seed + 1
-        try:
-            behs, stats = tlcrun.run_model(inst["module"], cfg_text, nprimes=inst.get("nprimes", 8),
-                                           timeout=inst.get("timeout", 3000), simulate=sim,
-                                           extra_consts=inst.get("consts"))
-        except (tlcrun.TlcError, decode.DecodeError) as e:
-            print(f"MACHINERY-ERROR property={prop} {inst['module']}/{inst['cfg']}: {e}")
+        behs = None
+        err = None
+        for nprimes in (inst.get("nprimes", 8), 14, 20):
+            try:
+                behs, stats = tlcrun.run_model(inst["module"], cfg_text, nprimes=nprimes,
+                                               timeout=inst.get("timeout", 3000), simulate=sim,
+                                               extra_consts=inst.get("consts"))
+                break
+            except decode.DecodeError as e:   # magnitudes need more primes: rerun the same model with more
+                err = e
+                continue
+            except tlcrun.TlcError as e:
+                err = e
+                break
+        if behs is None:
+            print(f"MACHINERY-ERROR property={prop} {inst['module']}/{inst['cfg']}: {err}")
             return 2
         all_stats.append(stats)
         if not behs:
@@ -203,6 +213,7 @@ def run_check(prop, tier, seed):
             "exhaustive": all(not i.get("simulate") for i in insts),
             "instances": all_stats,
             "actions": acts,
+            "counters": rp.counters,
             "known_findings_hit": known_hits,
             "explanation": spec.get("explanation", ""),
         },
